@@ -6,14 +6,18 @@ package main
 import (
 	"fmt"
 	"os"
+	"reflect"
 	"runtime"
 	"sort"
+	"sync"
 	"time"
 
 	"github.com/lindb/common/pkg/fasttime"
 
 	"github.com/lindb/lindb/internal/vbox"
 	"github.com/lindb/lindb/kv"
+	"github.com/lindb/lindb/kv/table"
+	"github.com/lindb/lindb/kv/version"
 	"github.com/lindb/lindb/models"
 	"github.com/lindb/lindb/pkg/option"
 	"github.com/lindb/lindb/pkg/timeutil"
@@ -42,6 +46,10 @@ type world struct {
 	known     map[string]bool // real source files (segment/family/number) already accounted for
 	predicted []*fileModel    // files the last flush event must have produced (not yet registered)
 	firstLast int             // first/last values of a source file that differ from the written-point model (memory database semantics)
+
+	jobObserver  func(target kv.Family, isRollup bool, err error) // additional observer of rollup job commits (part crash)
+	unstable     []string                                         // old-version-bookkeeping-stable witnesses of the last rollup step
+	heldVersions int
 }
 
 func newWorld(dir string, c *Case) (*world, error) {
@@ -124,13 +132,76 @@ func (w *world) famTimes() []int64 {
 	return fts
 }
 
+// held is an open snapshot of a kv family together with the rollup bookkeeping it reported when it was taken.
+type held struct {
+	what   string
+	snap   version.Snapshot
+	rollup map[table.FileNumber][]timeutil.Interval
+	refs   map[string]map[version.FamilyID][]table.FileNumber
+}
+
+func hold(what string, f kv.Family) *held {
+	snap := f.GetSnapshot()
+	v := snap.GetCurrent()
+	return &held{what: what, snap: snap, rollup: v.GetRollupFiles(), refs: v.GetAllReferenceFiles()}
+}
+
 // rollup: ForceRollup on every source store that holds a written family + wait for the background jobs.
+//
+// Deterministic witness for "a version is an immutable snapshot of the rollup bookkeeping" (a rollup job reads the
+// live reference marks of the target family's current version while another source family's job commits its own marks
+// to a clone of it; shared inner maps = concurrent map iteration and write = process crash): snapshots of every source
+// and target family are held across the step - the ones before the step and, through the job observer, the target
+// version right after each rollup job committed its reference marks - and must report unchanged marks afterwards.
 func (w *world) rollup() error {
-	if err := w.box.Rollup(shardID, w.famTimes(), idle); err != nil {
+	var mu sync.Mutex
+	var helds []*held
+	for _, iv := range append([]int64{srcInterval}, targetIntervals...) {
+		fams, err := w.box.KVFamilies(shardID, timeutil.Interval(iv))
+		if err != nil {
+			return err
+		}
+		for _, kf := range fams {
+			helds = append(helds, hold(fmt.Sprintf("%s family %s/%s before the rollup step", ivName(iv), kf.Segment, kf.Family), kf.F))
+		}
+	}
+	kv.VerifOnCompactJobDone(func(target kv.Family, isRollup bool, err error) {
+		if isRollup {
+			h := hold(fmt.Sprintf("target family %s right after a rollup job committed (err=%v)", target.Name(), err), target)
+			mu.Lock()
+			helds = append(helds, h)
+			mu.Unlock()
+		}
+		if w.jobObserver != nil {
+			w.jobObserver(target, isRollup, err)
+		}
+	})
+	err := w.box.Rollup(shardID, w.famTimes(), idle)
+	kv.VerifOnCompactJobDone(nil)
+	w.unstable = nil
+	for _, h := range helds {
+		v := h.snap.GetCurrent()
+		if now := v.GetRollupFiles(); !reflect.DeepEqual(now, h.rollup) {
+			w.unstable = append(w.unstable, fmt.Sprintf("%s: the held version reported rollup marks %v, after the step the SAME version reports %v", h.what, h.rollup, now))
+		}
+		if now := v.GetAllReferenceFiles(); !reflect.DeepEqual(now, h.refs) {
+			w.unstable = append(w.unstable, fmt.Sprintf("%s: the held version reported reference marks %v, after the step the SAME version reports %v", h.what, h.refs, now))
+		}
+		h.snap.Close()
+	}
+	w.heldVersions += len(helds)
+	if err != nil {
 		return err
 	}
 	w.m.rollup()
 	return nil
+}
+
+func ivName(iv int64) string {
+	if iv == srcInterval {
+		return "10s"
+	}
+	return targetName(iv)
 }
 
 // compactSource: Family.Compact() on every source kv family (hazard H4 scenario only) + wait.
